@@ -448,6 +448,10 @@ func (w *world) sendSeq(sess *sessM, slot, seq uint32, class string, t *tmpl, ca
 	if limit := sess.maxOps; limit > 0 && 1+len(t.ops) > limit && !(c.mode == "error" && c.expStatus == nfsv4.NFS4ERR_TOO_MANY_OPS) {
 		// More operations than the session allows, but the sequence ID
 		// decides first: a retransmission, a duplicate, a misordered one.
+		// (Where the model expects a refusal by the sequence ID, or the
+		// cached reply of another request, NFS4ERR_TOO_MANY_OPS is just as
+		// good a refusal: see refusedAsOversized.)
+		c.oversized = sess.live() && int(slot) < len(sess.slots)
 		how := c.mode
 		if c.mode == "error" {
 			how = shortStatus(c.expStatus)
@@ -598,8 +602,27 @@ func replayAcceptable(orig *call, raw []byte, res *nfsv4.Compound4res) (bool, st
 	return false, ""
 }
 
+// refusedAsOversized: c has more operations than its session allows and
+// its sequence ID is not the slot's next one, so that the code answers it
+// by its sequence ID (false retry, misordered, duplicate). A server that
+// looks at the number of operations first refuses it as well, with
+// NFS4ERR_TOO_MANY_OPS, which serves the property equally: it is rejected
+// without side effects and does not receive another request's reply.
+func (w *world) refusedAsOversized(c *call) bool {
+	if c.oversized && c.res != nil && isSeqError(c.res, nfsv4.NFS4ERR_TOO_MANY_OPS) {
+		w.label("oversized_compound_refused_with_too_many_ops_regardless_of_sequence_id")
+		return true
+	}
+	return false
+}
+
 func (w *world) checkEarlyDup(c *call) {
 	if c.earlyOK {
+		return
+	}
+	if w.refusedAsOversized(c) {
+		c.earlyOK = true
+		c.collected = true
 		return
 	}
 	// A duplicate of a request that is still being processed cannot
@@ -626,6 +649,9 @@ func (w *world) finish(c *call) {
 	w.setOutFor(c, statusOf(res))
 	switch c.mode {
 	case "error":
+		if c.expStatus == nfsv4.NFS4ERR_SEQ_MISORDERED && w.refusedAsOversized(c) {
+			return
+		}
 		if !isSeqError(res, c.expStatus) {
 			w.failf("C19: request %q (%s on %s slot %d seq %d) was answered %s, expected a SEQUENCE failing with %s", c.desc, c.class, c.sess, c.slot, c.seq, statusOf(res), shortStatus(c.expStatus))
 		}
@@ -653,7 +679,7 @@ func (w *world) finish(c *call) {
 			}
 		}
 	case "stale_busy":
-		if !isSeqError(res, nfsv4.NFS4ERR_SEQ_MISORDERED) {
+		if !isSeqError(res, nfsv4.NFS4ERR_SEQ_MISORDERED) && !w.refusedAsOversized(c) {
 			ok := false
 			if c.orig != nil {
 				ok, _ = replayAcceptable(c.orig, c.raw, res)
@@ -672,6 +698,7 @@ func (w *world) finish(c *call) {
 		// snapshots); the cached reply is acceptable, and so is what a slot
 		// without a retained reply answers.
 		switch {
+		case w.refusedAsOversized(c):
 		case isSeqError(res, nfsv4.NFS4ERR_SEQ_MISORDERED):
 			w.label("retransmission_after_too_many_ops:reply_was_discarded")
 		case c.mayFalse && isSeqError(res, nfsv4.NFS4ERR_SEQ_FALSE_RETRY):
@@ -705,6 +732,9 @@ func (w *world) finishCached(c *call) {
 		// Same slot and sequence ID, different operation list.
 		if atWrap {
 			w.label("false_retry_at_wrap_around")
+		}
+		if w.refusedAsOversized(c) {
+			return
 		}
 		// The classes around operations NFSv4.1 does not have: the cached
 		// reply contains an OP_ILLEGAL result (which matches any requested
@@ -883,6 +913,9 @@ func (w *world) finishExec(c *call) {
 		}
 		if d.mayFalse && isSeqError(d.res, nfsv4.NFS4ERR_SEQ_FALSE_RETRY) {
 			w.label("false_retry_inflight_rejected")
+			continue
+		}
+		if d.mayFalse && w.refusedAsOversized(d) {
 			continue
 		}
 		if d.mayFalse && falseRetryDetectableFull(c, d.t.ops) {
